@@ -171,26 +171,35 @@ def _under_trig(t, name: str, inside: bool = False) -> bool:
     return any(_under_trig(x, name, inside or t.op in ("sin", "cos", "tan")) for x in t.args)
 
 
+DENSE = False
+
+
 def _grid(tag: str) -> list:
     """points of a system's domain covering every sign pattern and the coordinate planes; the z axis, the origin and the
     half-plane where the azimuth jumps (y = 0, x < 0) are left out: conversions are not continuous (or not defined) there"""
     import math
     pts = []
     if tag == "C":
-        for x in (-1.3, 0.0, 0.7):
-            for y in (-0.9, 0.0, 1.1):
-                for z in (-1.7, 0.0, 0.6):
+        xs, ys, zs = ((-2.1, -1.3, -1e-3, 0.0, 1e-3, 0.7, 3.0), (-1.9, -0.9, -1e-3, 0.0, 1e-3, 1.1, 2.5), (-1.7, -1e-3, 0.0, 1e-3, 0.6, 4.0)) if DENSE else \
+            ((-1.3, 0.0, 0.7), (-0.9, 0.0, 1.1), (-1.7, 0.0, 0.6))
+        for x in xs:
+            for y in ys:
+                for z in zs:
                     if (x == 0 and y == 0) or (y == 0 and x < 0):
                         continue
                     pts.append({"C0": x, "C1": y, "C2": z})
     elif tag == "Y":
-        for phi in (-2.5, -math.pi / 2, -1.0, 0.0, 0.6, math.pi / 2, 2.0, 3.0):
-            for z in (-1.1, 0.0, 0.8):
-                pts.append({"Y0": 0.9, "Y1": phi, "Y2": z})
+        phis = (-2.5, -math.pi / 2, -1.0, 0.0, 0.6, math.pi / 2, 2.0, 3.0) + ((-3.1, -2.0, -0.3, 0.2, 1.2, 2.7, 3.1) if DENSE else ())
+        for rho in ((0.05, 0.9, 7.0) if DENSE else (0.9, )):
+            for phi in phis:
+                for z in (-1.1, 0.0, 0.8):
+                    pts.append({"Y0": rho, "Y1": phi, "Y2": z})
     else:
-        for theta in (0.4, math.pi / 2, 2.4):
-            for phi in (-2.5, -math.pi / 2, -1.0, 0.0, 0.6, math.pi / 2, 2.0, 3.0):
-                pts.append({"S0": 1.7, "S1": theta, "S2": phi})
+        phis = (-2.5, -math.pi / 2, -1.0, 0.0, 0.6, math.pi / 2, 2.0, 3.0) + ((-3.1, -2.0, -0.3, 0.2, 1.2, 2.7, 3.1) if DENSE else ())
+        for r in ((0.05, 1.7, 7.0) if DENSE else (1.7, )):
+            for theta in (0.4, math.pi / 2, 2.4) + ((0.01, 1.0, 2.0, 3.1) if DENSE else ()):
+                for phi in phis:
+                    pts.append({"S0": r, "S1": theta, "S2": phi})
     return pts
 
 
@@ -221,6 +230,8 @@ def check(run: Run) -> None:
     run.rule("X5", "the fall-through dispatch raises TypeError for unlike coordinate system types")
     run.rule("X6", "angles stay on one branch: a direct scalar conversion equals the conversion via the third system, and A -> B -> A is the identity, "
              "entry by entry (exact modulo 2 pi; the branch itself on a grid covering every sign pattern and the coordinate planes)")
+    global DENSE
+    DENSE = run.tier == "thorough"
     info = _properties(run)
     S = _read_tables(run, SC, info, vectors=False)
     M = _read_tables(run, VC, info, vectors=True)
